@@ -33,6 +33,8 @@ class MemTCP:
         if not self.closed:
             self.out += b; self.writes.append(len(b))
     def close(self): self.closed = True
+    def abort(self): self.closed = True
+    def _force_close(self, exc): self.closed = True
     def is_closing(self): return self.closed
     def get_extra_info(self, name, default=None): return self.peer if name == "peername" else default
 
